@@ -54,7 +54,9 @@ Init ==
     exceededRM |-> FALSE,   \* the peer had more unacknowledged QoS>0 publishes than the Receive Maximum
     ended |-> FALSE,        \* the run is over: what follows is the harness tearing things down
     router |-> FALSE,       \* the publish service is a topic router with resources "a" and "b"
-    noCtl |-> FALSE         \* the endpoint variant has no observable connection-control service
+    noCtl |-> FALSE,        \* the endpoint variant has no observable connection-control service
+    strict |-> 0            \* > 0: the generator sends nothing the monitor cannot classify; a protocol-error stop the
+                            \* monitor did not ask for is then a violation of property C<strict>
   ]
 
 Healthy(m) == m.est /\ ~m.term
@@ -111,6 +113,7 @@ OnCfg(m, ev) ==
     [] ev.k = "client_receive_max" -> [m EXCEPT !.maxReceive = ev.n, !.rmFixed = TRUE]
     [] ev.k = "gate_stop" -> [m EXCEPT !.gateStop = (ev.n # 0)]
     [] ev.k = "router" -> [m EXCEPT !.router = (ev.n # 0), !.noCtl = (ev.n # 0 /\ m.role = "client")]
+    [] ev.k = "strict" -> [m EXCEPT !.strict = ev.n]
     [] OTHER -> m
 
 AddReq(m, kind, id) ==
@@ -137,7 +140,8 @@ OnInPublish(m, ev) ==
               noalias |-> (unresolved \/ overMax), aliased |-> (alias > 0),
               \* what the handler has to see: flags (dup * 2 + retain) from the packet, and - from the
               \* in_props event that follows - payload fill byte and MQTT 5 properties
-              flags |-> ev.r, fill |-> -1, props |-> "?", mei |-> 0, pfi |-> 0]
+              flags |-> ev.r, fill |-> -1, props |-> "?", mei |-> 0, pfi |-> 0,
+              psize |-> 0]     \* Remaining Length of the frame (from in_props): the packet bytes the limiter charges
       unacked == Cardinality({k \in 1..Len(m.pubs) : m.pubs[k].q > 0 /\ ~m.pubs[k].refused
                       /\ ~((m.pubs[k].q = 1 /\ m.pubs[k].acked) \/ (m.pubs[k].q = 2 /\ m.pubs[k].comp))})
       m2 == [m1 EXCEPT !.pubs = Append(@, rec), !.narr = n,
@@ -192,7 +196,7 @@ OnIn(m, ev) ==
 RECURSIVE SumRunning(_, _)
 SumRunning(ps, i) ==
   IF i > Len(ps) THEN 0
-  ELSE (IF ps[i].st = "started" THEN ps[i].size ELSE 0) + SumRunning(ps, i + 1)
+  ELSE (IF ps[i].st = "started" THEN (IF ps[i].psize > 0 THEN ps[i].psize ELSE ps[i].size) ELSE 0) + SumRunning(ps, i + 1)
 RunningBytesBefore(m) == SumRunning(m.pubs, 1)
 
 ----------------------------------------------------------------------------
@@ -234,9 +238,10 @@ OnHStart(m, ev) ==
          ELSE IF m.role = "server" /\ m.ver = 3 /\ m.maxReceive > 0 /\ run > m.maxReceive /\ Healthy(m)
            THEN Fail(m1, "C12:more-concurrent-handlers-than-max-receive")
          ELSE IF m.role = "server" /\ m.ver = 3 /\ m.recvSize > 0 /\ Healthy(m)
-                 /\ RunningBytesBefore(m) > m.recvSize + 16
-           THEN \* the handlers already running hold more than the byte limit (payload bytes are a
-                \* lower bound of packet bytes; 16 = header slack), yet one more packet was dispatched
+                 /\ RunningBytesBefore(m) > m.recvSize + 8
+           THEN \* the handlers already running hold more packet bytes (Remaining Length of their frames; 8 =
+                \* slack for the fixed header, which the statement does not pin down) than the byte limit,
+                \* yet one more packet was dispatched
                 Fail(m1, "C12:more-bytes-in-flight-than-max-receive-size")
          ELSE IF m.ver = 5 /\ m.maxReceive > 0 /\ p.q > 0 /\ Healthy(m)
                  /\ Cardinality({k \in 1..Len(m.pubs) : m.pubs[k].n < p.n /\ m.pubs[k].q > 0
@@ -420,6 +425,8 @@ OnCtl(m, ev) ==
                              !.needProto = IF ev.k = "stop_proto" THEN FALSE ELSE @]
              m2 == End(m1, CASE ev.k = "stop_proto" -> "proto" [] ev.k = "stop_error" -> "error" [] OTHER -> "peer")
          IN IF m.stops >= 1 THEN Fail(m2, "C07:more-than-one-stop-notification")
+            ELSE IF ev.k = "stop_proto" /\ m.strict > 0 /\ ~m.needProto /\ Healthy(m) /\ m.expectStop = "none"
+              THEN Fail(m2, "C" \o ToString(m.strict) \o ":connection-ended-with-a-protocol-error-although-the-peer-kept-to-the-rules")
             ELSE IF m.expectStop # "none" /\ m.expectStop # ev.k /\ ~m.term
               THEN Fail(m2, "C07:stop-reason-class-differs-from-cause")
             ELSE m2
@@ -493,6 +500,7 @@ Step(m, ev) ==
          \* belongs to the PUBLISH that was just recorded (if it was recorded at all)
          IF m.pubs # << >> /\ m.pubs[Len(m.pubs)].n = m.narr /\ m.pubs[Len(m.pubs)].props = "?"
            THEN [m EXCEPT !.pubs[Len(m.pubs)].fill = ev.id, !.pubs[Len(m.pubs)].props = ev.x,
+                          !.pubs[Len(m.pubs)].psize = ev.s,
                           !.pubs[Len(m.pubs)].mei = ev.q, !.pubs[Len(m.pubs)].pfi = ev.r]
            ELSE m
     [] ev.e = "h_props" ->
